@@ -1,5 +1,6 @@
 """check driver: corpus selection per property, parallel jobs, known-findings matching, replay files, evidence."""
-import os, sys, json, time, hashlib, re
+import os, sys, json, time, hashlib, re, traceback
+from .mir import Unsupported
 from concurrent.futures import ProcessPoolExecutor, as_completed
 from . import harness, corpus, props, gram
 
@@ -57,7 +58,7 @@ def select(prop, t, sd):
 
 BOUNDS = {'quick': 4, 'thorough': 6}
 
-def run_parser_property(prop, evals=None, N=None, filt=None, level_text='', job=None, extra=None, grammars=None):
+def run_parser_property(prop, evals=None, N=None, filt=None, level_text='', job=None, extra=None, grammars=None, side_jobs=None):
     t0 = time.time(); t = tier(); sd = seed()
     harness.build_llw()
     gs = grammars(t, sd) if grammars else select(prop, t, sd)
@@ -69,15 +70,24 @@ def run_parser_property(prop, evals=None, N=None, filt=None, level_text='', job=
     jobs = [(g, prop, N, opts) for g in gs]
     results = []
     workers = int(os.environ.get('VERIF_JOBS', '16'))
+    side = {}
     with ProcessPoolExecutor(workers) as ex:
+        sidef = {k: ex.submit(fn, t) for k, fn in (side_jobs or {}).items()}
         futs = [ex.submit(job or props.grammar_job, j) for j in jobs]
         for f in as_completed(futs): results.append(f.result())
+        for k, f in sidef.items(): side[k] = f.result()
     results.sort(key=lambda r: r['name'])
-    return finish(prop, results, N, t, sd, t0, extra_cov=extra(results) if extra else None)
+    ec = extra(results) if extra else {}
+    extra_viol = []; extra_inc = []
+    for k, v in side.items():
+        ec[k] = v.get('cov'); extra_viol += v.get('viol', []); extra_inc += v.get('inconclusive', [])
+    return finish(prop, results, N, t, sd, t0, extra_cov=ec or None, extra_viol=extra_viol, extra_inc=extra_inc)
 
-def finish(prop, results, N, t, sd, t0, extra_cov=None):
+def finish(prop, results, N, t, sd, t0, extra_cov=None, extra_viol=(), extra_inc=()):
     known = load_known()
     viol = []; inconclusive = []; mism = []
+    inconclusive += list(extra_inc)
+    for v in extra_viol: viol.append(v)
     for r in results:
         inconclusive += r['inconclusive']; mism += r['mismatches']
         for v in r['violations']: viol.append(v)
@@ -145,10 +155,57 @@ def finish(prop, results, N, t, sd, t0, extra_cov=None):
         return 2
     return 0
 
+def _toy_harness():
+    g = [x for x in corpus.curated() if x.name == 'toy'][0]
+    h, err = harness.make_harness(g.text())
+    if h is None: raise Unsupported('cannot build the reference harness: ' + str(err))
+    return g, h
+
+def c02_histories(t):
+    from . import c02h, run
+    out = dict(viol=[], inconclusive=[], cov=None)
+    try:
+        g, h = _toy_harness(); pp = run.ParserProgram(h)
+        L = {'quick': 5, 'thorough': 6}[t]
+        tot = dict(paths=0, steps=0, queries=0, solver_time=0.0); samples = []; fns = set()
+        for l in range(1, L + 1):
+            r = c02h.explore_histories(pp, l)
+            for k in tot: tot[k] += r[k]
+            samples += r['samples'][:2]; fns |= set(r['fns'])
+            if not r['complete']: out['inconclusive'].append(f'histories L={l}: incomplete')
+            seen = set()
+            for v in r['viol']:
+                if v['kind'] in seen: continue
+                seen.add(v['kind'])
+                out['viol'].append(dict(prop='C02', kind=v['kind'], gname='CstData builder histories', family='histories', detail=v['detail'], entry='history', n=l,
+                                        witness=[], script='', gtext=json.dumps(v['witness']), confirmed=True, native=None, report_as=None))
+        out['cov'] = dict(max_history_length=L, histories=tot['paths'], mir_steps=tot['steps'], solver_queries=tot['queries'], solver_time_s=round(tot['solver_time'], 3),
+                          functions=sorted(f for f in fns if f.startswith('CstData') or 'CstChildren' in f or 'CstIndex' in f), samples=samples[:6],
+                          note='op codes and mark arguments are solver variables; every path is one well-nested history; compared with a reference tree model (layout and children() walk)')
+    except Exception as e:
+        out['inconclusive'].append(f'builder histories: {e!r} {traceback.format_exc()[-500:]}')
+    return out
+
+def c02_kani(t):
+    from . import c02h
+    out = dict(viol=[], inconclusive=[], cov=None)
+    try:
+        g, h = _toy_harness()
+        r = c02h.kani_codec(h)
+        out['cov'] = r
+        if not r['ok']:
+            out['viol'].append(dict(prop='C02', kind='cst-index-codec', gname='CstIndex codec (Kani)', family='kani', detail='Kani does not prove the 48-bit index round trip: ' + r['tail'][-600:], entry='kani', n=0,
+                                    witness=[], script='', gtext='', confirmed=True, native=None, report_as=None))
+    except Exception as e:
+        out['inconclusive'].append(f'kani codec: {e!r}')
+    return out
+
 def main(argv):
     prop = argv[1]
     if prop == 'replay': return replay(argv[2])
-    if prop in ('C01', 'C02', 'C03', 'C06', 'C05'):
+    if prop == 'C02':
+        return run_parser_property(prop, side_jobs={'builder_histories': c02_histories, 'kani_cst_index_codec': c02_kani})
+    if prop in ('C01', 'C03', 'C06', 'C05'):
         return run_parser_property(prop)
     if prop == 'C04':
         return run_parser_property(prop, evals=['C04auto'])
@@ -200,6 +257,22 @@ def replay(path):
         bad = bool(o.get('panic') or o.get('bad_spans') or o.get('sema_panic'))
         print(json.dumps(o)[:1500]); print('REPRODUCED' if bad else 'property holds on this input now')
         return 1 if bad else 0
+    if body.get('grammar_name') in ('CstData builder histories', 'CstIndex codec (Kani)'):
+        # internal-state findings on the real builder code: re-run the symbolic history exploration / the Kani proof on the current tree
+        r = (c02_histories if 'histories' in body['grammar_name'] else c02_kani)('quick')
+        bad = [v for v in r['viol'] if v['kind'] == body.get('kind')]
+        print('recorded history:', body.get('grammar', '')[:500])
+        print('REPRODUCED: ' + bad[0]['detail'][:500] if bad else 'the recorded kind of violation no longer occurs')
+        return 1 if bad else 0
+    if prop == 'C19':
+        from . import c19
+        v = dict(kind=body['kind'], model=(body['flags'], body['environment']))
+        ok = c19.confirm_native(v); print(v.get('native')); print('REPRODUCED' if ok else 'property holds for this configuration now')
+        return 1 if ok else 0
+    if prop == 'C13':
+        from . import c12
+        exe = c12.build_fe_native(); o = c12.fe_native_run(exe, [' '.join(body['tokens'])])[0]
+        print(json.dumps(o)[:1500]); print('recorded detail:', body.get('detail', '')[:600]); return 0
     g = gram.parse_simple(body['grammar'], name=body.get('grammar_name', 'replay'))
     h, err = harness.make_harness(body['grammar'])
     if h is None:
